@@ -21,8 +21,12 @@
         long as the loop's own write was blocked instead of returning promptly
      33 Close returned while the loop goroutine was inside its write
      34 Close never returned          35 panic          36 goroutine of the interceptor alive after Close returned
-     37 on the OPEN interceptor a parked packet call was not served after the loop's write had returned *)
-From IV Require Export Base.Word Model.HandOff.
+     37 on the OPEN interceptor a parked packet call was not served after the loop's write had returned
+   c11_release_failures (set c11): shape 26 - Bind x called IMMEDIATELY after Unbind x (no call in between) finds
+     state that is not fresh: the per-stream state was not released by the Unbind.  A sub-shape of 6 (rebind not
+     fresh) that no call between the two can explain - in particular not the jitter buffer's known shape 1106
+     (packets of ANOTHER stream read between Unbind x and Bind x sit in the one shared buffer). *)
+From IV Require Export Base.Word Model.HandOff Check.C11bCheck.
 
 Definition c11h_case := (Z * Z * Z * list Z * list Z * list Z)%type.
 
@@ -97,3 +101,47 @@ Definition c11h_spec_failures (cases : list c11h_case) : list (nat * nat) := hsp
 
 Definition held_ok_b (mode k q : Z) (obs : list Z) : bool :=
   match held_codes mode k q obs with [] => true | _ => false end.
+
+(* ---- set c11: per-stream state survives an Unbind that is immediately followed by the Bind ---- *)
+Definition unbind_of (x : Z) (prev : option op) : bool :=
+  match prev with Some (OUnbind y) => y =? x | _ => false end.
+
+Fixpoint release_codes (prev : option op) (ops : list op) (obs : list (Z * Z)) : list nat :=
+  match ops, obs with
+  | o :: ops', (oc, aux) :: obs' =>
+      (match o with
+       | OBind x => if unbind_of x prev && (oc =? 0) && Z.odd aux then [26%nat] else []
+       | _ => []
+       end) ++ release_codes (Some o) ops' obs'
+  | _, _ => []
+  end.
+
+(* Prop-level reading: every Bind x that returned and directly follows Unbind x starts from fresh state *)
+Fixpoint release_ok (prev : option op) (ops : list op) (obs : list (Z * Z)) : Prop :=
+  match ops, obs with
+  | o :: ops', (oc, aux) :: obs' =>
+      (forall x, o = OBind x -> unbind_of x prev = true -> oc = 0 -> Z.odd aux = false) /\
+      release_ok (Some o) ops' obs'
+  | _, _ => True
+  end.
+
+Lemma release_codes_nil_iff ops : forall prev obs, release_codes prev ops obs = [] <-> release_ok prev ops obs.
+Proof.
+  induction ops as [|o ops IH]; intros prev [|[oc aux] obs]; cbn [release_codes release_ok]; try tauto.
+  rewrite app_nil_iff, IH. split.
+  - intros [H1 H2]. split; [|exact H2]. intros x -> U E. subst oc. rewrite U in H1. cbn [Z.eqb andb] in H1.
+    destruct (Z.odd aux); [discriminate|reflexivity].
+  - intros [H1 H2]. split; [|exact H2]. destruct o; try reflexivity.
+    destruct (unbind_of x prev) eqn:U; cbn [andb]; [|reflexivity].
+    destruct (Z.eqb_spec oc 0); cbn [andb]; [|reflexivity].
+    rewrite (H1 x eq_refl U e). reflexivity.
+Qed.
+
+Definition c11_release_failures (cases : list c11_case) : list (nat * nat) :=
+  (fix go (i : nat) (cases : list c11_case) : list (nat * nat) :=
+     match cases with
+     | [] => []
+     | (iid, _, ops, obs, _) :: tl =>
+         map (fun k => (i, (100 * Z.to_nat iid + k)%nat)) (nodup Nat.eq_dec (release_codes None (ops ++ [OClose]) obs))
+           ++ go (S i) tl
+     end) 0%nat cases.
